@@ -42,6 +42,15 @@ class Worker:
         except Exception:
             pass
 
+    def close(self):
+        """end of input: lets the worker leave its loop (it then writes its coverage dump), then reaps it"""
+        try:
+            self.p.stdin.close()
+            self.p.wait(timeout=5)
+        except Exception:
+            pass
+        self.kill()
+
     def call(self, tasks, timeout):
         """returns list of results or None on timeout/crash (worker is respawned)"""
         try:
@@ -99,7 +108,7 @@ def pmap(module, fn, args_list, timeout=2.0, jobs=None, batch=32, env=None):
                         r = w.call([[module, fn, args_list[i]]], timeout * 10)
                     results[i] = r[0] if r is not None else dict(HANG)
         finally:
-            w.kill()
+            w.close()
 
     ts = [threading.Thread(target=loop) for _ in range(jobs)]
     for t in ts:
